@@ -45,7 +45,7 @@ def dmd_case(draw):
     flags = [draw(st.booleans()), draw(st.booleans())] if rep in ('preorth', 'orthonormal') else [True, True]
     case = {'dims': dims, 'm': m, 'r': r, 'rep': rep, 'flags': flags, 'threshold': draw(st.sampled_from([0, 0, 1e-9])),
             'variant': draw(st.sampled_from(['exact', 'standard'])), 'seed': draw(gen.SEED),
-            'scale_exp': draw(st.sampled_from([0, 0, -3, -12, 6])), 'ykind': draw(st.sampled_from(['linear', 'linear', 'perturbed_lowrank'])),
+            'scale_exp': draw(st.sampled_from([0, 0, -3, -12, 6])), 'ykind': draw(st.sampled_from(['linear', 'linear', 'perturbed_lowrank', 'near_symmetric'])),
             'update_in_place': draw(st.sampled_from([False, True])), 'small_eig': draw(st.sampled_from([False, False, True]))}
     if rep in ('ttsvd', 'orthonormal') and draw(st.booleans()):
         # a cut that really cuts: prescribed singular values of X, `r` of them in [0.1, 1] and `small` of them around 1e-5,
@@ -115,7 +115,12 @@ def body(c):
         Y = scale * (Y0 + 1e-5 * rng.standard_normal((N, m)))
     else:
         A = rng.standard_normal((N, N))
-        if c.get('small_eig') and r == N:
+        if c.get('ykind') == 'near_symmetric':
+            # reversible dynamics observed with a little noise: the linear map is symmetric up to 1e-7 (not up to rounding), so the
+            # reduced matrix is nearly symmetric -- its eigenvalues are perfectly conditioned, which is why they are compared at
+            # 1e-9 in this class (below)
+            A = (A + A.T) / 2 + 1e-7 * rng.standard_normal((N, N))
+        if c.get('small_eig') and r == N and c.get('ykind') != 'near_symmetric':
             # a fast-decaying direction: one DMD eigenvalue 3e-4 times the largest (X spans the whole space, so the reduced matrix
             # is similar to A).  The threshold is a cut on the singular values of X, not on the spectrum of the dynamics.
             lamA = np.linspace(0.5, 1.5, N) * np.where(rng.random(N) < 0.5, -1.0, 1.0)
@@ -141,10 +146,13 @@ def body(c):
     f = tdmd.tdmd_exact if c['variant'] == 'exact' else tdmd.tdmd_standard
     ev, modes = f(x, y, threshold=np.float64(c['threshold']) if c['seed'] % 3 == 0 else c['threshold'], ortho_l=c['flags'][0], ortho_r=c['flags'][1])
     for t, sn in snaps:
-        build.require_unchanged(t, sn, 'input of tdmd_' + c['variant'])
+        build.require_unchanged(t, sn, 'input of tdmd_' + c['variant'], strict=True)
     ev = np.asarray(ev)
     require(ev.ndim == 1 and ev.shape[0] == r, 'eigenvalue_count', '%d eigenvalues for a rank-%d snapshot matrix' % (ev.shape[0] if ev.ndim == 1 else -1, r))
-    require(match_multisets(ev, lam, 1e-7 * lmax), 'eigenvalues', 'TDMD eigenvalues %s differ from matrix DMD %s' % (np.sort_complex(ev), np.sort_complex(lam)))
+    tol_ev = 1e-7
+    if c.get('ykind') == 'near_symmetric' and s[0] < 1e3 * s[-1]:
+        tol_ev = 1e-9             # normal reduced matrix (Bauer-Fike constant 1) and cond(X) < 1e3: rounding is ~1e-13
+    require(match_multisets(ev, lam, tol_ev * lmax), 'eigenvalues', 'TDMD eigenvalues %s differ from matrix DMD %s' % (np.sort_complex(ev), np.sort_complex(lam)))
     require_consistent(modes, 'modes_consistent')
     require(modes.row_dims == dims + [r] and modes.col_dims == [1] * (len(dims) + 1), 'modes_dims', 'rows %s, expected %s' % (modes.row_dims, dims + [r]))
     Phi = dense.contract(modes.cores).reshape(N, r)
@@ -164,6 +172,8 @@ def body(c):
             res = np.linalg.norm(P @ (M @ phi) - ev[k] * phi)
             require(res <= 1e-6 * nM * nphi, 'standard_modes', 'mode %d: ||U U^H (Y X^+) phi - lambda phi|| = %.3e' % (k, res))
     lab = {c['variant'], 'rep_' + c['rep']}
+    if c.get('ykind') == 'near_symmetric':
+        lab.add('nearly_symmetric_dynamics')
     if c.get('update_in_place') and c['flags'] == [True, True] and c['threshold'] != 1e-3:
         # streaming use: the snapshot core of the SAME tensor-train object is replaced (here: snapshots mixed by an invertible
         # matrix) and the decomposition is asked for again with identical options -- it must describe the new data
